@@ -515,8 +515,11 @@ class Gen:
             elif kind == 'before':
                 calls = [m.start() for m in re.finditer(r'\b%s\s*\(' % re.escape(sec['callee']), masked[body_open:body_close])]
                 if sec.get('of') and len(calls) != sec['of'] and sec['k'] <= len(calls):
-                    raise rsx.LostAnchor('%s: %s has %d call(s) of %s, the ghost code in front of call %d was written for %d' % (
+                    # another number of call sites: the k-th call may be a different statement now - the ghost code is
+                    # dropped (recorded), exactly as when the call is gone; the rest of the function is still checked
+                    self.dropped_loop_sections.append('%s: %s has %d call(s) of %s, the ghost code in front of call %d was written for %d: dropped' % (
                         rel, qual, len(calls), sec['callee'], sec['k'], sec['of']))
+                    continue
                 if sec['k'] < 1 or sec['k'] > len(calls):
                     # the call the ghost code was written for is gone: its assertions are dropped (recorded); the
                     # function's own contract is still checked
@@ -593,7 +596,7 @@ class Gen:
         if record:
             self.functions.append({'fn': qual, 'file': rel, 'lines': [it.line_start, it.line_end], 'sha256': it.sha256,
                                    'closures': count_closures(it.text),
-                                   'loops': len(loops), 'props': props})
+                                   'loops': len(loops), 'props': props, 'maxloops': opts.get('maxloops')})
 
     def do_identcount(self, ident, toks):
         """Syntactic census over the crate: the identifier occurs exactly n times in each listed file and nowhere
